@@ -454,6 +454,20 @@ def check_replay_closure(ctx, prog, R, retain_term, fk):
                 arms = None
                 info = mir.switch_on(cb, lib.call_target(cb, b))
 
+    # polarity: the element is run only on the arm where its command compared EQUAL to the finished command
+    pol = False
+    for b, t in eqs:
+        fr = op_fn(t["func"])
+        o0, o1 = origins(cb, t["args"][0]), origins(cb, t["args"][1])
+        s = {tuple(x[:3]) for x in o0 | o1}
+        if ("arg", 2, ".command") in s and any(x[0] == "arg" and x[1] == 1 for x in o0 | o1):
+            arms = lib.bool_arms(cb, b)
+            if arms:
+                eq_arm = arms[0][1] if lib.tail(mir.fn_name(fr), 1) == "eq" else arms[0][2]
+                pol = bool(rc) and all(cb.dominates(eq_arm, r) for r in rc)
+    ctx.check(pol, "C02.c", "%s:runs-only-equal-commands" % ck, "%s:%d" % (cb.file, cb.line),
+              "an element is replayed only on the arm where its command equals the finished command",
+              "the replay runs postponed commands whose target is NOT the system that just finished (they are still busy or unrelated)")
     ctx.check(okeq, "C02.c", "%s:matches-on-command-identity" % ck, "%s:%d" % (cb.file, cb.line),
               "replay selects elements by comparing their command with the finished command",
               "replay closure does not compare the element's command with the captured command")
